@@ -22,6 +22,7 @@ RULE = (
     "0..3S+8 for every small buffer size S, and the offsets around 8192/16384 for the real buffer size. Layer B drives "
     "from_bytes / from_file / from_path and compares settings, xorkey, xorencoded, or ValueError. non-trivial = the "
     "payload contains at least one block under some key"
+    '. Added families: XorEncoded stages read through buffer sizes that are not a multiple of 4, blocks at decoded offsets 1-3, size-only stubs with marker-like nonces, constructor-level decoys with every caller key order, candidates read immediately and again after the generator is exhausted, extraction histories (P, Q, P). '
 )
 ASSUMPTIONS = [
     "the relative priority between leftover keys in all-keys mode is implementation-defined (compared per key)",
